@@ -507,6 +507,7 @@ func runC16(tb stat.TB, c c16Case) {
 			}
 			logf("rate limiting enabled by P%d on an open connection", k)
 			refused := false
+			t0 := time.Now()
 			for i := 0; i < 4; i++ {
 				rp, err := call()
 				if err != nil {
@@ -516,6 +517,11 @@ func runC16(tb stat.TB, c c16Case) {
 					refused = true
 					break
 				}
+			}
+			if !refused && time.Since(t0) > 800*time.Millisecond {
+				// at 1 token/s a starved machine can stretch four calls over enough time to refill: not judged
+				refused = true
+				stat.Label("rate_limit_probe_too_slow_to_judge", 1)
 			}
 			pc.Close()
 			nt = true
